@@ -455,6 +455,9 @@ var extUnspecified = []string{
 }
 
 func tableAppExt(r *core.Run) {
+	r.Rule("T-app (extended callables): each callable is exercised through a list of forms, a source template with at most three holes and a complete alphabet per hole " +
+		"(all arities 0..max+1 over the base alphabet plus sorted maps, then typed alphabets: numbers, index ints, lists, vectors, strings, maps, keys, comparison and key functions, type specifiers, one value of every kind as the ill-typed sampler); " +
+		"every form is enumerated exhaustively (cases = product of its hole alphabets); forms tagged unchanged / aliasing / in-place / copies observe the argument after the call")
 	for _, u := range extUnspecified {
 		r.Assume("unspecified (not compared): " + u)
 	}
